@@ -49,6 +49,10 @@ def tasks(tier):
         ts.append(Task('props.C02:t_kernel', name='C02/kernel.' + fname, relpath=relpath, fname=fname, timeout=1200))
     for K, fz in ((1, ()), (2, ()), (2, (1,)), (3, ()), (3, (2,)), (4, ()), (4, (4,)), (5, ()), (5, (3,))):
         ts.append(Task('props.wire:run', name='C02/wire.driver-step.%d.%s' % (K, ''.join(map(str, fz)) or 'none'), fname='c02_driver_step', kwargs=dict(K=K, frozen=fz), timeout=600))
+    for K in (1, 2, 3, 4, 5):
+        ts.append(Task('props.wire:run', name='C02/wire.driver-two-steps.%d' % K, fname='c02_driver_two_steps', kwargs=dict(K=K), timeout=600))
+    for K in (1, 2, 3):
+        ts.append(Task('props.wire:run', name='C02/wire.const-dispatch.%d' % K, fname='c02_const_dispatch', kwargs=dict(K=K), timeout=600))
     for n in (4, 5):
         ts.append(Task('props.wire:run', name='C02/wire.const-1d.%d' % n, fname='c02_const_1d', kwargs=dict(n=n), timeout=600))
     for fz in ((), (1,), (2,)):
